@@ -156,6 +156,7 @@ class Evaluator:
         if models:
             self.models.update(models)
         self.max_depth = max_depth
+        self.nonnull = set()      # symbolic inputs that are references (never null)
         self._id = 0
         self._nout = 0
 
@@ -982,6 +983,21 @@ def m_mem_replace(ev, st, args, depth, t):
     yield ("ret", st, old)
 
 
+def m_ptr_as_ref(ev, st, args, depth, t):
+    """`<*const T>::as_ref` / `<*mut T>::as_mut`: None for a null pointer, Some(&*p) otherwise.  Pointers made from references (and
+    symbolic inputs declared with `Evaluator.nonnull`) are never null."""
+    v = strip(args[0])
+    if (isinstance(v, tuple) and v[0] == "ref") or v in getattr(ev, "nonnull", ()):
+        yield ("ret", st, _opt("Some", args[0]))
+        return
+    st0 = st.copy()
+    if ev.add_cond(st0, v, "eq", 0):
+        yield ("ret", st0, _opt("None"))
+    st1 = st.copy()
+    if ev.add_cond(st1, v, "ne", (0,)):
+        yield ("ret", st1, _opt("Some", args[0]))
+
+
 def m_deref(ev, st, args, depth, t):
     # Deref of plain references only (method resolution on &&T); wrappers stay opaque through the generic path
     raise Stuck("deref model")
@@ -1019,4 +1035,7 @@ MODELS = {
     "std::num::NonZero::<T>::new": m_nonzero_new,
     "std::num::NonZero::<T>::get": m_nonzero_get,
     "std::mem::replace": m_mem_replace,
+    "std::ptr::const_ptr::<impl *const T>::as_ref": m_ptr_as_ref,
+    "std::ptr::mut_ptr::<impl *mut T>::as_ref": m_ptr_as_ref,
+    "std::ptr::mut_ptr::<impl *mut T>::as_mut": m_ptr_as_ref,
 }
